@@ -141,7 +141,7 @@ op("dropdup_a", "df", lambda x: x.drop_duplicates(subset=["a"]), order="lose", o
 op("dropdup", "any", lambda x: x.drop_duplicates(), order="lose", osens=True, tier=2)
 op("isin_a", "df", lambda x: x[x["a"].isin([1, 4, 6])], tier=2)
 # a value container holding LAZY elements (a scalar reduction next to literals): the container is imported into the graph
-op("isin_lazy", "df", lambda x: x[x["a"].isin([x["a"].min(), 4])] if not isinstance(x, pd.DataFrame) else x[x["a"].isin([x["a"].min(), 4])], tier=2)
+op("isin_lazy", "df", lambda x: x[x["a"].isin([x["a"].min(), 4])] if not isinstance(x, pd.DataFrame) else x[x["a"].isin([x["a"].min(), 4])], tier=3)
 op("abs", "any", lambda x: x.abs(), tier=2)
 op("isna", "any", lambda x: x.isna(), tier=2)
 op("add1", "any", lambda x: x + 1, tier=2)
@@ -302,17 +302,17 @@ op("rsub_scalar", "df", lambda x: x[["a", "b", "u"]].rsub(10), tier=2)
 op("astype_substr_keys", "df", lambda x: x.rename(columns={"d": "ab"}).astype({"a": "float32", "ab": "float64"}), tier=2)
 op("rename_absent_key", "df", lambda x: x.rename(columns={"zz": "a", "b": "B"}), tier=2)
 # elementwise operations whose operands have DIFFERENT rows (aligned on labels: result as long as the union)
-op("add_filtered", "df", lambda x: x["b"][x["b"] > 2] + x["a"], lsens=True, tier=2)
-op("add_filtered_frames", "df", lambda x: x[x["a"] > 2][["a", "u"]] + x[x["u"] > 4][["a", "u"]], lsens=True, tier=2)
+op("add_filtered", "df", lambda x: x["b"][x["b"] > 2] + x["a"], lsens=True, tier=3)
+op("add_filtered_frames", "df", lambda x: x[x["a"] > 2][["a", "u"]] + x[x["u"] > 4][["a", "u"]], lsens=True, tier=3)
 op("twice_partitions", "any", lambda x: _concat([x.partitions[[0]], x.partitions[[1]]]), pd=None, tags=("twice", "daskonly", "psens"), tier=1)
 # a filter above a join whose FIRST condition reads columns of both inputs (cannot be attributed to one side), and-ed to one-sided ones
-op("merge_T2_filt_cross", "df", lambda x: (lambda m: m[(m["u"] > m["e"]) & (m["b_x"] > 0)])(x.merge(_T2(x), on="a")), order="lose", labels="lose", tier=2, tags=("dup",))
-op("merge_T2_filt_cross_stacked", "df", lambda x: (lambda m: (lambda f: f[f["b_x"] > 0])(m[m["u"] > m["e"]]))(x.merge(_T2(x), on="a")), order="lose", labels="lose", tier=2, tags=("dup",))
+op("merge_T2_filt_cross", "df", lambda x: (lambda m: m[(m["u"] > m["e"]) & (m["b_x"] > 0)])(x.merge(_T2(x), on="a")), order="lose", labels="lose", tier=3, tags=("dup",))
+op("merge_T2_filt_cross_stacked", "df", lambda x: (lambda m: (lambda f: f[f["b_x"] > 0])(m[m["u"] > m["e"]]))(x.merge(_T2(x), on="a")), order="lose", labels="lose", tier=3, tags=("dup",))
 # integer parameters that equal the boolean default of the same parameter (split_out=1 vs True)
-op("dropdup_so1", "any", lambda x: x.drop_duplicates(split_out=1) if not isinstance(x, (pd.DataFrame, pd.Series)) else x.drop_duplicates(), order="lose", osens=True, tier=2)
-op("unique_so1", "s", lambda x: x.unique(split_out=1) if not isinstance(x, pd.Series) else pd.Series(x.unique(), name=x.name), order="lose", labels="lose", tier=2)
+op("dropdup_so1", "any", lambda x: x.drop_duplicates(split_out=1) if not isinstance(x, (pd.DataFrame, pd.Series)) else x.drop_duplicates(), order="lose", osens=True, tier=3)
+op("unique_so1", "s", lambda x: x.unique(split_out=1) if not isinstance(x, pd.Series) else pd.Series(x.unique(), name=x.name), order="lose", labels="lose", tier=3)
 # a row slice that covers whole partitions in the middle, with a column indexer that is a permutation of all columns
-op("loc_rows_cols_perm", "df", lambda x: x[["a", "b", "u"]].loc[1:10, ["u", "a", "b"]], lsens=True, osens=True, tier=2)
+op("loc_rows_cols_perm", "df", lambda x: x[["a", "b", "u"]].loc[1:10, ["u", "a", "b"]], lsens=True, osens=True, tier=3)
 
 
 # --------------------------------------------------------------------------
